@@ -7,7 +7,7 @@ CONSTANTS
   MaxEvents = 2
   MaxLeaves = 3
   MaxOps = 4
-  Faults = {"stmt", "ctx"}
+  Faults = {"stmt", "ctx", "reorg"}
   AllowGap = FALSE
   AllowRestart = TRUE
   AllowReorg = TRUE
